@@ -175,9 +175,11 @@ def _allowed(prefix):
     (which checks, rather than assumes, that disjoint options do not interact)."""
     n = len(_STATE['ops'])
     if _STATE['tier'] != 'quick':
-        if _STATE['depth'] >= 3 and len(prefix) + 1 < _STATE['depth']:
-            return _STATE['core_ops']
-        return range(n)
+        # thorough: every pair of operations; a third operation (any) after every pair over a 12-operation core
+        # (fork throughput bounds the total: 180^2 + 12^2 * 180 = ~58k process states)
+        if len(prefix) == 1:
+            return range(n)
+        return range(n) if all(p in _STATE['core3'] for p in prefix) else ()
     first = prefix[0]
     fo = _opts(first)
     rel = [i for i in range(n) if (_opts(i) & fo) or (not fo and len(_STATE['ops'][i][0]) == 1 and _STATE['ops'][i][1] == 'exc'
@@ -212,7 +214,9 @@ def run(ctx):
     quick_firsts = {i for i, (items, e) in enumerate(ops) if e == 'ok' and len(items) <= 1}
     quick_firsts |= {i for i, (items, e) in enumerate(ops) if e == 'exc' and len(items) == 1 and items[0][1] in ('1', '0')}
     _STATE.update(ns=ns, ops=ops, depth=depth, core_ops=core_ops, tier=ctx.tier, seed=ctx.seed, quick_firsts=quick_firsts)
-    firsts = range(len(ops)) if depth == 2 else core_ops
+    core3 = set(core_ops[::max(1, len(core_ops) // 12)][:12])
+    _STATE['core3'] = core3
+    firsts = range(len(ops))
     nodes = []
     for part in ctx.pmap(_explore, firsts, fresh=True):
         nodes += part
@@ -284,8 +288,7 @@ def run(ctx):
         samples=[[kw_src(ops[i][0]) for i in nodes[len(nodes) // 2][0]], [kw_src(ops[i][0]) for i in nodes[-1][0]]],
         rule=(f'E2 fork-snapshot DFS: every history of BeartypeConf creations of length <= {depth} over an alphabet of {len(ops)} keyword '
               'sets (per option: explicit default, valid values, invalid values, equal-but-not-identical look-alikes such as 1 for True; '
-              'valid/invalid pairs over a 6-option core in both keyword orders)' + ('' if depth == 2 else '; for depth 3 the first two '
-              'operations range over the single-option core alphabet') + '.  Each node = one real process state; the last operation is '
+              'valid/invalid pairs over a 6-option core in both keyword orders)' + ('' if depth == 2 else '; thorough: every ordered pair of operations, and every third operation after every pair over a 12-operation core') + '.  Each node = one real process state; the last operation is '
               'judged against the option table and against its own observation in a fresh process; every pair of configurations alive '
               'in a history is checked for identity/equality/hash.  distinct_nontrivial = nodes with a non-empty history.  '
               + ('quick: second operations restricted to those sharing an option with the first plus a rotating 1/7 sample of the others '
